@@ -726,7 +726,7 @@ func (f *btcsel) genSel(r *hx.Run, id int) {
 	if strings.HasPrefix(res, "ok") {
 		cls = "ok"
 		nsel := strings.Count(strings.Fields(res)[1], ",") + 1
-		r.Nontrivial(fmt.Sprintf("%s/L%d/k%s/sel%d/mc%v/%d", c.mode, L, kindsClass(c.kinds), nsel, c.mc > 0, c.feeRate > 3))
+		r.Nontrivial(fmt.Sprintf("%s/L%d/k%s/sel%d/mc%v/fee%v", c.mode, L, kindsClass(c.kinds), nsel, c.mc > 0, c.feeRate > 3))
 	}
 	r.Hist("sel.kinds." + kindsClass(c.kinds))
 	r.Hist(fmt.Sprintf("sel.L.%s", lenClass(L)))
